@@ -18,6 +18,39 @@ def filter_stack(rng, vocab, dirs):
     return ";".join(layers), "f" * n, []
 
 
+def followed_link_cases(seed, n):
+    """path walks with links read as their TARGETS over trees whose links all lead to files or to directories that do not
+    re-enter an ancestor, with at least one rule naming a link to a directory: a tree verdict on a followed link skips what
+    lies behind it, a file verdict does not"""
+    import random as _random
+    rng = _random.Random(seed)
+    out = []
+    for c in walklib.gen_cases(seed, n * 2, stack=filter_stack, bounds="none", mode="p", link="t"):
+        if c.labels["base"] != "root":
+            continue
+        links = [pth for pth, k in c.fs.nodes.items() if k[0] == "l"]
+        dirlinks = []
+        ok = bool(links)
+        for pth in links:
+            can = c.fs.canon(walkgen.ABS + pth)
+            if can is None or can[:3] != walkgen.ABS:
+                ok = False          # dangling, or leaves the tree
+                break
+            if c.fs.kind(can) == ("d",):
+                if can[3:] == pth[:len(can[3:])]:
+                    ok = False      # re-enters an ancestor: an error item, not an entry
+                    break
+                dirlinks.append(pth)
+        if not ok or not dirlinks:
+            continue
+        layers = c.stack.split(";")
+        k = rng.randrange(len(layers))
+        layers[k] = layers[k] + ("," if layers[k] != "f:" else "") + "%s=%s" % (hx(rng.choice(dirlinks)[-1]), rng.choice("TTF"))
+        c.stack = ";".join(layers)
+        out.append(c)
+    return out
+
+
 def not_observer_stack(rng, vocab, dirs):
     """an `any` negation mixing exhaustive and other patterns, some aimed at the SAME directory through both, then a
     pure observer (a filter_entry without rules)"""
@@ -86,8 +119,10 @@ def expected(c):
         skip_below = None
         name = p.rstrip("/").rsplit("/", 1)[-1] if p != base else base.rstrip("/").rsplit("/", 1)[-1]
         vs = verdicts(name)
-        isdir = k in ("d",)
-        if k.startswith("l"):
+        # links read as their targets: a link to a directory IS a directory entry (its recorded contents are walked beneath
+        # it, and a tree verdict on it skips them); links read as files: nothing recorded beneath a link is visited
+        isdir = k in ("d",) or (c.link == "t" and k == "lt")
+        if k.startswith("l") and c.link != "t":
             link_below = p
         observed.append((p, isdir))
         if any(v == "T" for v in vs) and isdir:
@@ -106,10 +141,11 @@ def run(rep, tier, seed, replay):
     n = 500 if tier == "quick" else 6000
     direct = walklib.gen_cases(seed, n, stack=filter_stack, bounds="none", mode="p", link="f")
     direct = [c for c in direct if c.labels["base"] in ("root", "subdir")]
+    direct += followed_link_cases(seed + 6, n)
     general = walklib.gen_cases(seed + 1, n)
     if replay is not None:
         c = walklib.case_from(replay["input"])
-        simple = c.mode == "p" and c.link == "f" and (c.mn, c.mx) == ("-", "-") and c.stack != "-" and all(l.startswith("f:") for l in c.stack.split(";")) and c.base == ""
+        simple = c.mode == "p" and (c.mn, c.mx) == ("-", "-") and c.stack != "-" and all(l.startswith("f:") for l in c.stack.split(";")) and c.base == ""
         c.labels["base"] = "root"
         direct, general = ([c], []) if simple else ([], [c])
     walklib.run_cases(direct + general)
